@@ -11,8 +11,10 @@ import (
 	"time"
 
 	metav1 "k8s.io/apimachinery/pkg/apis/meta/v1"
+	"k8s.io/apimachinery/pkg/util/sets"
 	"k8s.io/apiserver/pkg/authentication/user"
 	genericapirequest "k8s.io/apiserver/pkg/endpoints/request"
+	genericfilters "k8s.io/apiserver/pkg/server/filters"
 
 	proxyv1alpha1 "github.com/kubewharf/kubegateway/pkg/apis/proxy/v1alpha1"
 	"github.com/kubewharf/kubegateway/pkg/clusters"
@@ -32,7 +34,33 @@ type ServeCase struct {
 	Way   string `json:"way"`   // ok | upstream-error | no-endpoint | client-abort | panic | refused | no-match
 	Limit int    `json:"limit"` // the schema's max-in-flight limit (1..4)
 	Held  int    `json:"held"`  // slots taken by other requests before this one arrives
+	// Shape of the request ("" = list): get, create, patch, deletecollection, watch, watch-legacy, log, exec, attach,
+	// portforward, proxy, nonresource. RequestInfo and ExtraRequestInfo (incl. IsLongRunningRequest) are derived from
+	// the request by the real factories with the proxy server's long-running check.
+	Shape string `json:"shape,omitempty"`
 }
+
+var serveShapes = map[string][2]string{
+	"":                 {"GET", "/api/v1/namespaces/default/pods"},
+	"get":              {"GET", "/api/v1/namespaces/default/pods/p"},
+	"create":           {"POST", "/api/v1/namespaces/default/pods"},
+	"patch":            {"PATCH", "/apis/apps/v1/namespaces/default/statefulsets/s/status"},
+	"deletecollection": {"DELETE", "/api/v1/namespaces/default/events"},
+	"watch":            {"GET", "/api/v1/namespaces/default/pods?watch=true&resourceVersion=5"},
+	"watch-legacy":     {"GET", "/api/v1/watch/namespaces/default/pods"},
+	"log":              {"GET", "/api/v1/namespaces/default/pods/p/log?follow=true"},
+	"exec":             {"POST", "/api/v1/namespaces/default/pods/p/exec?command=ls"},
+	"attach":           {"POST", "/api/v1/namespaces/default/pods/p/attach"},
+	"portforward":      {"POST", "/api/v1/namespaces/default/pods/p/portforward"},
+	"proxy":            {"GET", "/api/v1/namespaces/default/services/s/proxy/metrics"},
+	"nonresource":      {"GET", "/version"},
+}
+
+var serveShapeNames = []string{"", "get", "create", "patch", "deletecollection", "watch", "watch-legacy", "log", "exec", "attach", "portforward", "proxy", "nonresource"}
+
+// the long-running check of the real proxy server (cmd/kube-gateway: watch/proxy verbs, attach/exec/proxy/log/portforward subresources)
+var serveLongRunning = genericfilters.BasicLongRunningRequestCheck(sets.NewString("watch", "proxy"), sets.NewString("attach", "exec", "proxy", "log", "portforward"))
+var serveRequestInfo = &genericapirequest.RequestInfoFactory{APIPrefixes: sets.NewString("api", "apis"), GrouplessAPIPrefixes: sets.NewString("api")}
 
 const serveSchema = "fc"
 
@@ -41,8 +69,9 @@ type serveObs struct {
 	panicked   bool
 	duringFree int // slots free while the upstream was handling the request (-1: upstream never reached)
 	afterFree  int // slots free after ServeHTTP returned
-	ownLimit   string
-	err        string
+	ownLimit    string
+	longRunning bool
+	err         string
 }
 
 // freeSlots counts how many further requests the limiter admits right now (and gives them back).
@@ -179,13 +208,30 @@ func runImplServe(s ServeCase) (obs serveObs) {
 
 	ctx, cancel := context.WithCancel(context.Background())
 	defer cancel()
-	ctx = genericapirequest.WithUser(ctx, &user.DefaultInfo{Name: "alice", Groups: []string{"system:authenticated"}})
-	ctx = genericapirequest.WithRequestInfo(ctx, &genericapirequest.RequestInfo{IsResourceRequest: true, Path: "/api/v1/namespaces/default/pods",
-		Verb: "list", APIPrefix: "api", APIVersion: "v1", Namespace: "default", Resource: "pods", Parts: []string{"pods"}})
-	ctx = gatewayrequest.WithExtraRequestInfo(ctx, &gatewayrequest.ExtraRequestInfo{Scheme: "https", Hostname: "c.local", UpstreamCluster: ci, IsProxyRequest: true})
-	ctx = gatewayrequest.WithProxyInfo(ctx, gatewayrequest.NewProxyInfo())
-	req := httptest.NewRequest("GET", "https://c.local/api/v1/namespaces/default/pods", nil).WithContext(ctx)
+	shape, known := serveShapes[s.Shape]
+	if !known {
+		obs.err = "unknown request shape " + s.Shape
+		return
+	}
+	req := httptest.NewRequest(shape[0], "https://c.local"+shape[1], nil)
 	req.RemoteAddr = net.JoinHostPort("127.0.0.1", "40000")
+	ri, err := serveRequestInfo.NewRequestInfo(req)
+	if err != nil {
+		obs.err = "RequestInfo: " + err.Error()
+		return
+	}
+	ctx = genericapirequest.WithUser(ctx, &user.DefaultInfo{Name: "alice", Groups: []string{"system:authenticated"}})
+	ctx = genericapirequest.WithRequestInfo(ctx, ri)
+	extra, err := (&gatewayrequest.ExtraRequestInfoFactory{LongRunningFunc: serveLongRunning}).NewExtraRequestInfo(req.WithContext(ctx))
+	if err != nil {
+		obs.err = "ExtraRequestInfo: " + err.Error()
+		return
+	}
+	extra.UpstreamCluster, extra.IsProxyRequest = ci, true
+	obs.longRunning = extra.IsLongRunningRequest
+	ctx = gatewayrequest.WithExtraRequestInfo(ctx, extra)
+	ctx = gatewayrequest.WithProxyInfo(ctx, gatewayrequest.NewProxyInfo())
+	req = req.WithContext(ctx)
 
 	var w http.ResponseWriter
 	rec := httptest.NewRecorder()
@@ -333,16 +379,19 @@ func runServe(c *rig.Ctx, s ServeCase, record bool) bool {
 	return true
 }
 
-var serveWays = []string{"ok", "upstream-error", "no-endpoint", "client-abort", "panic", "refused", "no-match"}
+// "refused" (the schema is exactly full when the request arrives) three times: it is crossed with every request shape
+var serveWays = []string{"ok", "refused", "upstream-error", "no-endpoint", "refused", "client-abort", "panic", "refused", "no-match"}
 
 func genServe(c *rig.Ctx) {
-	n := c.Budget(70, 1400)
+	n := c.Budget(108, 1800)
 	for i := 0; i < n && judgeFailures < 5; i++ {
 		s := ServeCase{Kind: "serve", Way: serveWays[i%len(serveWays)], Limit: 1 + c.Rng.Intn(4)}
 		s.Held = c.Rng.Intn(s.Limit)
 		if s.Way == "refused" {
 			s.Held = s.Limit
 		}
+		s.Shape = rig.Pick(c.Rng, serveShapeNames)
+		c.Count("serve-shape:" + s.Shape)
 		c.Case(rig.Canon(s), true, "serve:"+s.Way, func() interface{} { return s })
 		c.Trace()
 		runServe(c, s, true)
